@@ -1,10 +1,374 @@
 import OasisModel.Mkvs.Proof
-/- C12 — checkpoint chunking and restoring (stub, filled in below). -/
+/-
+C12 — checkpoint chunking and restoring (core Lean only).
+
+Mirrors go/storage/mkvs:
+  * `doNext` / `itSeek` / `itNext`     iterator.go:180-371 (`Seek`, `Next`, `doNext` with a proof builder:
+        every dereferenced node is included; byte-level key surgery `AppendBit`/`Split`/`Merge`/`GetBit`
+        and `Compare` of node/key.go expressed through `toBits`/`packBits`)
+  * `seqChunk` / `seqChunks`            checkpoint/chunk.go:52-143 (sequential chunker: iterate with a V0
+        proof builder until `Size() >= chunkSize`; next offset = following key)
+  * `Subtree`, `visitNext`, `nextChunk`, `trim`, `split`   checkpoint/subtree.go
+  * `splitTasks`, `parRounds`, `parChunks`                 checkpoint/chunk.go:145-247 (parallel chunker:
+        deterministic left-to-right splitting, one chunk per task per round, finished tasks filtered)
+  * `restoreChunkM`                     chunk.go:249-341 `restoreChunk` (digest, decode, verify, import)
+  * `Restorer`, `rsStart/rsAbort/rsRestoreChunk`           checkpoint/restorer.go (pending-set machine)
+Not in the model (seen only by the correspondence): snappy/CBOR framing of chunk files and the
+digest over the compressed stream (the harness supplies "digest matched" as a bit), errgroup
+scheduling of `createChunks` (the model runs the tasks of a round in order: they share nothing),
+the NodeDB multipart batch (the database is modelled as the set of imported node hashes).
+-/
 namespace OasisModel.Mkvs
 
-def seqChunks (_eh : Bytes) (_size : Nat) (_t : HTrie) : List (List (Option Bytes)) := []
-def parChunks (_eh : Bytes) (_size _threads : Nat) (_t : HTrie) : List (List (Option Bytes)) := []
-def restoreRun (_H : Bytes → Bytes) (_root : Bytes) (_chunks : List (List (Option Bytes))) (_order : List Nat) :
-    Nat × Bool := (0, false)
+/-! ### the iterator with a proof builder -/
+
+inductive VState
+  | before | at | atLeft | after
+  deriving Repr, DecidableEq, Inhabited
+
+/-- `pathAtom` (iterator.go:122): where to resume below which node. -/
+structure Atom where
+  t : HTrie
+  d : Nat
+  path : Bits
+  st : VState
+  deriving Repr, Inhabited
+
+/-- `Key.AppendBit(keyLen, val)`: `(keyLen+1).ToBytes()` bytes, the old bytes copied, bit `keyLen` set. -/
+def keyAppendBit (k : Bytes) (keyLen : Nat) (val : Bool) : Bytes :=
+  let n := toBytesLen (keyLen + 1)
+  let bits := (toBits k ++ List.replicate (8 * n) false).take (8 * n)
+  packBits (bits.set keyLen val)
+
+/-- `advanceKeyToRight` (iterator.go:276): first `nbd` bits of the key, then a 1 bit. -/
+def keyAdvanceRight (k : Bytes) (nbd : Nat) : Bytes :=
+  packBits ((toBits k).take nbd ++ [true])
+
+def keyGetBit (k : Bytes) (i : Nat) : Bool := (toBits k).getD i false
+
+structure ItOut where
+  found : Option (Bytes × Bytes)
+  pos : List Atom                 -- atoms appended by this call, deepest first
+  b : Builder
+
+/-- `treeIterator.doNext` (iterator.go:256). `d` = `bitDepth`, `path` = the bits of `path`. -/
+def doNext (ver : Nat) : HTrie → Nat → Bits → Bytes → VState → Builder → ItOut
+  | .nil, _, _, _, _, b => ⟨none, [], b⟩
+  | .leaf h k v, _, _, key, _, b =>
+    let b := b.includeLeaf h k v
+    if k < key then ⟨none, [], b⟩ else ⟨some (k, v), [], b⟩
+  | .node h lab lf hlf l r, d, path, key, st, b =>
+    let self : HTrie := .node h lab lf hlf l r
+    let b := b.includeNode ver h lab lf
+    let nbd := d + lab.length
+    let newPath := path ++ lab
+    let takeFirst := nbd > 0 && decide (8 * key.length ≥ nbd) && decide (key < packBits newPath)
+    let keyNotLonger := decide (8 * key.length ≤ nbd)
+    -- tryNext on the own leaf (visitBefore only)
+    let r1 : ItOut :=
+      if st = .before && (keyNotLonger || takeFirst) then
+        match lf with
+        | none => ⟨none, [], b⟩
+        | some (k, v) =>
+          let b := b.includeLeaf hlf k v
+          if k < key then ⟨none, [], b⟩ else ⟨some (k, v), [⟨self, d, path, .at⟩], b⟩
+      else ⟨none, [], b⟩
+    if r1.found.isSome then r1 else
+    let b := r1.b
+    if st = .before || st = .at then
+      let key := if keyNotLonger then keyAppendBit key nbd false else key
+      let goLeft := !keyGetBit key nbd || takeFirst
+      let r2 : ItOut :=
+        if goLeft then
+          let o := doNext ver l nbd newPath key .before b
+          if o.found.isSome then ⟨o.found, o.pos ++ [⟨self, d, path, .atLeft⟩], o.b⟩ else ⟨none, [], o.b⟩
+        else ⟨none, [], b⟩
+      if r2.found.isSome then r2 else
+      let key := if goLeft then keyAdvanceRight key nbd else key
+      let o := doNext ver r nbd newPath key .before r2.b
+      if o.found.isSome then ⟨o.found, o.pos ++ [⟨self, d, path, .after⟩], o.b⟩ else ⟨none, [], o.b⟩
+    else if st = .atLeft then
+      let key := keyAdvanceRight key nbd
+      let o := doNext ver r nbd newPath key .before b
+      if o.found.isSome then ⟨o.found, o.pos ++ [⟨self, d, path, .after⟩], o.b⟩ else ⟨none, [], o.b⟩
+    else ⟨none, [], b⟩
+
+/-- Iterator state: current item, resume stack (deepest first), the proof builder. -/
+structure Iter where
+  cur : Option (Bytes × Bytes) := none
+  pos : List Atom := []
+  b : Builder := {}
+
+/-- `Seek` (iterator.go:195). -/
+def itSeek (ver : Nat) (root : HTrie) (key : Bytes) (b : Builder) : Iter :=
+  let o := doNext ver root 0 [] key .before b
+  ⟨o.found, o.pos, o.b⟩
+
+/-- The loop of `Next` (iterator.go:214-246) over the resume stack. -/
+def itNextLoop (ver : Nat) (key : Bytes) : List Atom → Builder → Iter
+  | [], b => ⟨none, [], b⟩
+  | a :: rest, b =>
+    let o := doNext ver a.t a.d a.path key a.st b
+    if o.found.isSome then ⟨o.found, o.pos ++ rest, o.b⟩ else itNextLoop ver key rest o.b
+
+def itNext (ver : Nat) (it : Iter) : Iter :=
+  match it.cur with
+  | none => it
+  | some (k, _) => itNextLoop ver k it.pos it.b
+
+/-! ### the sequential chunker -/
+
+/-- Number of stored keys: the fuel of the loops below (they advance by one key per step). -/
+def HTrie.count : HTrie → Nat
+  | .nil => 0
+  | .leaf _ _ _ => 1
+  | .node _ _ lf _ l r => (if lf.isSome then 1 else 0) + l.count + r.count
+
+/-- `for it.Seek(offset); it.Valid() && Size() < chunkSize; it.Next() {}` -/
+def seqFill (chunkSize : Nat) : Nat → Iter → Iter
+  | 0, it => it
+  | n + 1, it => if it.cur.isSome && decide (it.b.size < chunkSize) then seqFill chunkSize n (itNext 0 it) else it
+
+/-- `seqChunker.createChunk` (chunk.go:89): the chunk's entries and the next offset. -/
+def seqChunk (eh : Bytes) (chunkSize : Nat) (root : HTrie) (offset : Bytes) : List (Option Bytes) × Option Bytes :=
+  let it := seqFill chunkSize (root.count + 1) (itSeek 0 root offset {})
+  let entries := (build eh 0 it.b.incl root).entries
+  let next := if it.cur.isSome then (itNext 0 it).cur.map (·.1) else none
+  (entries, next)
+
+def seqLoop (eh : Bytes) (chunkSize : Nat) (root : HTrie) : Nat → Bytes → List (List (Option Bytes))
+  | 0, _ => []
+  | n + 1, offset =>
+    let c := seqChunk eh chunkSize root offset
+    match c.2 with
+    | none => [c.1]
+    | some next => c.1 :: seqLoop eh chunkSize root n next
+
+/-- `seqChunker.chunk` (chunk.go:52): the chunk list (entries of each V0 proof). -/
+def seqChunks (eh : Bytes) (chunkSize : Nat) (root : HTrie) : List (List (Option Bytes)) :=
+  seqLoop eh chunkSize root (root.count + 1) []
+
+/-! ### the parallel chunker -/
+
+/-- `pathAtom{nd, visitState}` of subtree.go; `nd = none` is the nil node of an empty root. The own
+leaf of an internal node is pushed as a leaf node. The four states are visitBefore, visitAt,
+visitAtLeft, visitAtRight (here `.after`). -/
+structure PAtom where
+  nd : HTrie            -- `.nil` = nil node
+  st : VState
+  deriving Repr, Inhabited
+
+/-- `subtree{path, pending}`; `pending` has its top (last element in Go) at the head. -/
+structure Subtree where
+  path : List HTrie := []
+  pending : List PAtom := []
+  deriving Repr, Inhabited
+
+/-- `visitNext(ptr)`: a nil pointer pushes nothing. -/
+def pushChild (pending : List PAtom) (t : HTrie) : List PAtom :=
+  match t with
+  | .nil => pending
+  | t => ⟨t, .before⟩ :: pending
+
+/-- `newSubtree`: the root pointer is never nil; an empty root pushes the nil node. -/
+def newSubtree (root : HTrie) : Subtree := { path := [], pending := [⟨root, .before⟩] }
+
+/-- The main loop of `nextChunk` (subtree.go:117-160). -/
+def nextChunkLoop (chunkSize : Nat) : Nat → List PAtom → Builder → Bool → List PAtom × Builder
+  | 0, pending, b, _ => (pending, b)
+  | n + 1, pending, b, lastIsLeaf =>
+    match pending with
+    | [] => ([], b)
+    | last :: rest =>
+      if decide (b.size ≥ chunkSize) && lastIsLeaf then (pending, b) else
+      let b := b.includeH 0 last.nd
+      match last.nd with
+      | .nil => nextChunkLoop chunkSize n rest b lastIsLeaf
+      | .leaf _ _ _ => nextChunkLoop chunkSize n rest b true
+      | .node _ _ lf hlf l r =>
+        match last.st with
+        | .before =>
+          let p := ⟨last.nd, .at⟩ :: rest
+          let p := match lf with
+            | none => p
+            | some (k, v) => ⟨.leaf hlf k v, .before⟩ :: p
+          nextChunkLoop chunkSize n p b false
+        | .at => nextChunkLoop chunkSize n (pushChild (⟨last.nd, .atLeft⟩ :: rest) l) b lastIsLeaf
+        | .atLeft => nextChunkLoop chunkSize n (pushChild (⟨last.nd, .after⟩ :: rest) r) b lastIsLeaf
+        | .after => nextChunkLoop chunkSize n rest b lastIsLeaf
+
+def isNilH : HTrie → Bool
+  | .nil => true
+  | _ => false
+
+/-- `trim` (subtree.go:173). -/
+def trim : List PAtom → List PAtom
+  | [] => []
+  | last :: rest =>
+    match last.nd with
+    | .nil => trim rest
+    | .leaf _ _ _ => last :: rest
+    | .node _ _ _ _ l r =>
+      match last.st with
+      | .before => last :: rest
+      | .at => if !isNilH l || !isNilH r then last :: rest else trim rest
+      | .atLeft => if !isNilH r then last :: rest else trim rest
+      | .after => trim rest
+
+/-- Number of nodes (internal, leaf, own leaf): bound for the work loops. -/
+def HTrie.nodes : HTrie → Nat
+  | .nil => 0
+  | .leaf _ _ _ => 1
+  | .node _ _ lf _ l r => 1 + (if lf.isSome then 1 else 0) + l.nodes + r.nodes
+
+/-- `subtree.nextChunk`: the chunk's entries and the subtree afterwards (trimmed). -/
+def nextChunk (eh : Bytes) (chunkSize : Nat) (root : HTrie) (s : Subtree) : List (Option Bytes) × Subtree :=
+  let b0 : Builder := s.path.foldl (fun b n => b.includeH 0 n) {}
+  -- Go includes `pending` from the bottom of the stack to the top
+  let b1 : Builder := s.pending.reverse.foldl (fun b pa => b.includeH 0 pa.nd) b0
+  let r := nextChunkLoop chunkSize (4 * root.nodes + 8) s.pending b1 false
+  ((build eh 0 r.2.incl root).entries, { s with pending := trim r.1 })
+
+/-- `subtree.split` (subtree.go:211): 0, 1 or 2 tasks. `pending.getLast` is Go's `pending[0]`. -/
+def splitSub (s : Subtree) : List Subtree :=
+  match s.pending.reverse with
+  | [] => []
+  | subroot :: above =>          -- `above` = pending[1:], bottom to top
+    match subroot.nd with
+    | .node _ _ _ _ l r =>
+      let mk (child : HTrie) : List Subtree :=
+        match child with
+        | .nil => []
+        | c => [{ path := s.path ++ [subroot.nd], pending := [⟨c, .before⟩] }]
+      match subroot.st with
+      | .before | .at =>
+        if isNilH l && isNilH r then [s] else mk l ++ mk r
+      | .atLeft =>
+        if above.isEmpty then [s]
+        else mk r ++ [{ path := s.path ++ [subroot.nd], pending := above.reverse }]
+      | .after => [{ path := s.path ++ [subroot.nd], pending := above.reverse }]
+    | _ => [s]
+
+/-- One pass of the inner loop of `splitTasks` (chunk.go:199-209): `none` = the early return. -/
+def splitPass (threads : Nat) : List Subtree → List Subtree → List Subtree × Bool
+  | [], acc => (acc, false)
+  | task :: rest, acc =>
+    if acc.length + (task :: rest).length ≥ threads then (acc ++ task :: rest, true)
+    else splitPass threads rest (acc ++ splitSub task)
+
+def splitTasksN (threads : Nat) : Nat → List Subtree → List Subtree
+  | 0, tasks => tasks
+  | n + 1, tasks =>
+    let r := splitPass threads tasks []
+    if r.2 then r.1 else splitTasksN threads n r.1
+
+/-- `parallelChunker.splitTasks` (ten passes). -/
+def splitTasks (threads : Nat) (tasks : List Subtree) : List Subtree := splitTasksN threads 10 tasks
+
+/-- `createChunks` + `filterFinished` for one round. -/
+def parRound (eh : Bytes) (chunkSize : Nat) (root : HTrie) (tasks : List Subtree) :
+    List (List (Option Bytes)) × List Subtree :=
+  let rs := tasks.map (nextChunk eh chunkSize root)
+  (rs.map (·.1), (rs.map (·.2)).filter (fun s => !s.pending.isEmpty))
+
+def parLoop (eh : Bytes) (chunkSize threads : Nat) (root : HTrie) : Nat → List Subtree → List (List (Option Bytes))
+  | 0, _ => []
+  | n + 1, pending =>
+    if pending.isEmpty then [] else
+    let tasks := splitTasks threads pending
+    let r := parRound eh chunkSize root tasks
+    r.1 ++ parLoop eh chunkSize threads root n r.2
+
+/-- `parallelChunker.chunk` (chunk.go:161). -/
+def parChunks (eh : Bytes) (chunkSize threads : Nat) (root : HTrie) : List (List (Option Bytes)) :=
+  parLoop eh chunkSize threads root (4 * root.nodes + 8) [newSubtree root]
+
+/-! ### restoring -/
+
+/-- Hashes of the nodes `doRestoreChunk` writes (`PutNode` on every materialised node; hash-only
+pointers are only visited). -/
+def PT.nodeHashes (H : Bytes → Bytes) : PT → List Bytes
+  | .nil => []
+  | .hash _ => []
+  | .leaf k v => [H (leafEnc k v)]
+  | .node bits label lf l r =>
+    (PT.node bits label lf l r).hashOf H :: (lf.nodeHashes H ++ (l.nodeHashes H ++ r.nodeHashes H))
+
+/-- All node hashes of a tree (what the database holds for the root). -/
+def Trie.nodeHashes (H : Bytes → Bytes) : Trie → List Bytes
+  | .nil => []
+  | .leaf k v => [H (leafEnc k v)]
+  | .node lab lf l r =>
+    hashWith H (.node lab lf l r) ::
+      ((match lf with
+        | none => []
+        | some (k, v) => [H (leafEnc k v)]) ++ (l.nodeHashes H ++ r.nodeHashes H))
+
+inductive RErr
+  | noRestore | inProgress | alreadyRestored | chunkNotFound | corrupted | proofFailed
+  deriving Repr, DecidableEq
+
+/-- A chunk as it arrives: did the digest over its bytes match the metadata, and the decoded entries
+(`none`: the bytes did not decode). -/
+structure ChunkData where
+  digestOk : Bool
+  entries : Option (List (Option Bytes))
+
+/-- `restoreChunk` (chunk.go:249): digest, decode, verify (V0 proof against the checkpoint root),
+import. On any error nothing is imported. -/
+def restoreChunkM (H : Bytes → Bytes) (root : Bytes) (db : List Bytes) (c : ChunkData) : Except RErr (List Bytes) :=
+  if !c.digestOk then .error .corrupted else
+  match c.entries with
+  | none => .error .proofFailed
+  | some es =>
+    match verifyProof H root { v := 0, untrusted := root, entries := es } with
+    | .error _ => .error .proofFailed
+    | .ok s => .ok (s.nodeHashes H ++ db)
+
+/-- `restorer` (restorer.go): the checkpoint being restored (number of chunks) and the pending set. -/
+structure Restorer where
+  current : Option Nat := none
+  pending : List Nat := []
+  db : List Bytes := []
+
+def rsStart (rs : Restorer) (nchunks : Nat) : Except RErr Restorer :=
+  match rs.current with
+  | some _ => .error .inProgress
+  | none => .ok { rs with current := some nchunks, pending := List.range nchunks }
+
+def rsAbort (rs : Restorer) : Restorer := { rs with current := none, pending := [] }
+
+/-- `RestoreChunk(idx, r)`: result = (done, new state) or the error and the state after it
+(a proof failure aborts the restore; other errors leave it in progress). -/
+def rsRestoreChunk (H : Bytes → Bytes) (root : Bytes) (rs : Restorer) (idx : Nat) (c : ChunkData) :
+    Except RErr Bool × Restorer :=
+  match rs.current with
+  | none => (.error .noRestore, rs)
+  | some n =>
+    if !rs.pending.contains idx then (.error .alreadyRestored, rs)
+    else if idx ≥ n then (.error .chunkNotFound, rs)
+    else
+      match restoreChunkM H root rs.db c with
+      | .error .proofFailed => (.error .proofFailed, rsAbort rs)
+      | .error e => (.error e, rs)
+      | .ok db =>
+        let pending := rs.pending.filter (· ≠ idx)
+        if pending.isEmpty then (.ok true, { current := none, pending := [], db := db })
+        else (.ok false, { rs with pending := pending, db := db })
+
+/-- Driver helper: restore the given chunk list in the given order (indices may repeat or be out of
+range); returns the number of distinct imported node hashes and whether the restore completed. -/
+def restoreRun (H : Bytes → Bytes) (root : Bytes) (chunks : List (List (Option Bytes))) (order : List Nat) :
+    Nat × Bool :=
+  let rs0 : Restorer := { current := some chunks.length, pending := List.range chunks.length }
+  let r := order.foldl (fun (acc : Restorer × Bool) i =>
+    match chunks[i]? with
+    | none => acc
+    | some es =>
+      let o := rsRestoreChunk H root acc.1 i { digestOk := true, entries := some es }
+      match o.1 with
+      | .ok done => (o.2, acc.2 || done)
+      | .error _ => (o.2, acc.2)) (rs0, false)
+  (r.1.db.eraseDups.length, r.2)
 
 end OasisModel.Mkvs
